@@ -39,6 +39,8 @@ VARIANTS = {
             "-fno-sanitize-recover=all", "-D" + GUARD, "-DTEST_BUILD"],
     # no sanitizer (strace / bulk loops)
     "plain": ["-O1", "-g", "-D" + GUARD, "-DTEST_BUILD"],
+    # ThreadSanitizer: two readers on two threads; a data race is an event no action of Reader.tla matches (C15)
+    "tsan": ["-O1", "-g", "-fno-omit-frame-pointer", "-fsanitize=thread", "-D" + GUARD, "-DTEST_BUILD"],
     # fast, for exhaustive numeric loops
     "fast": ["-O2", "-D" + GUARD, "-DTEST_BUILD"],
 }
